@@ -21,11 +21,18 @@ def run(ctx):
         pool = ['U', 'T', 'F', '(i 0)', '(i 1)', '(i 2)', '(c 97)', '(b 1)', '(s 1)', '(s 2)', '(cl)', '(cl 97)']
         for n in range(1500 if ctx.tier == 'quick' else 8000):
             cases.append(['CACHE', f'w{n}', 'raw'] + [r.choice(pool) for _ in range(r.randint(2, 8))])
+        # variant `parse`: constants through the parse_add_* functions the compiler uses for literals, interleaved with ABANDONED
+        # constructions (start_char_list / start_byte_list / start_list with items and no end — what an interrupted host or a failed
+        # conversion leaves behind): they must not leak into later constants
+        ppool = ['(cl 97 98)', '(cl 97)', '(cl)', '(cl 120 121 122)', '(bl 97)', '(bl 97 98)', '(bl)', '(i 5)', '(i 0)',
+                 '(xcl 120 121)', '(xcl)', '(xcl 53 32 61 32)', '(xbl 1 2)', '(xbl 97)', '(xl 1 2)', '(xl)']
+        for n in range(1500 if ctx.tier == 'quick' else 8000):
+            cases.append(['CACHE', f'y{n}', 'parse'] + [r.choice(ppool) for _ in range(r.randint(2, 9))])
     ctx.evaluations = len(cases)
     if not h_ok:
         return
     impl = vlib.run_impl(cases, 'c15', per_case_s=5.0)
-    model = vlib.run_model([c for c in cases if not (c[0] == 'CACHE' and c[2] == 'raw')], 'c15') if drv_ok else {}
+    model = vlib.run_model([c for c in cases if not (c[0] == 'CACHE' and c[2] in ('raw', 'parse'))], 'c15') if drv_ok else {}
     dis = 0
     streams = {}
     for c in cases:
